@@ -336,6 +336,75 @@ fn cli_level(rep: &Report) {
             rep.violation("cli/length-depends-on-identities-or-wiring", json!({"kind":"cli-len","n":n}), format!("output lengths for a {}-byte plaintext differ across parties/wirings: {:?}", n, v));
         }
     }
+    // plaintext on stdin: every byte offered on stdin is plaintext, whatever it looks like (e.g. lines equal to the
+    // password) and however the password is obtained; a run that cannot obtain a password may refuse, but whatever
+    // file comes out with exit 0 must be the conforming encryption of the whole of stdin (length = header + 32/chunk + len)
+    {
+        let mut sjobs = vec![];
+        for mode in ["key", "pass"] {
+            for shape in 0..5usize {
+                for envpass in [true, false] {
+                    for via_stdout in [true, false] {
+                        sjobs.push((mode, shape, envpass, via_stdout));
+                    }
+                }
+            }
+        }
+        let produced: usize = sjobs
+            .par_iter()
+            .map(|&(mode, shape, envpass, via_stdout)| {
+                rep.eval(1);
+                let pw = if mode == "key" { parties[0].password.clone() } else { "pw-for-file".to_string() };
+                let body = plaintext(seed ^ 0x85, 1000);
+                let stdin: Vec<u8> = match shape {
+                    0 => body.clone(),
+                    1 => [format!("{}\n", pw).into_bytes(), body.clone()].concat(),
+                    2 => [format!("{}\n{}\n", pw, pw).into_bytes(), body.clone()].concat(),
+                    3 => pw.clone().into_bytes(),
+                    _ => format!("{}\n{}\n", pw, pw).into_bytes(),
+                };
+                let sc = Scratch::new();
+                sc.write("kr.txt", kr.as_bytes());
+                let mut args: Vec<&str> = if mode == "key" { vec!["encrypt", "-t", &parties[1].name, "-f", &parties[0].name, "-k", "kr.txt"] } else { vec!["password", "encrypt"] };
+                if envpass {
+                    args.push("--env-pass");
+                }
+                if !via_stdout {
+                    args.extend_from_slice(&["-o", "out.ktl"]);
+                }
+                let mut cmd = Cmd::new(&args).stdin(&stdin);
+                if envpass {
+                    cmd = cmd.env("KESTREL_PASSWORD", &pw);
+                }
+                let out = proc::run(&cmd, &sc.0);
+                let case = json!({"kind":"cli-stdin","mode":mode,"shape":shape,"env_pass":envpass,"via_stdout":via_stdout});
+                let what = format!("kestrel {} with a {}-byte plaintext on stdin (shape {}), {}, {}", args.join(" "), stdin.len(), shape, if envpass { "password from the environment" } else { "no password source but the (absent) terminal" }, if via_stdout { "stdout pipe" } else { "-o" });
+                if let Err(e) = out.well_behaved() {
+                    rep.violation("cli-stdin/ill-behaved", case, format!("{}: {}", what, e));
+                    return 0;
+                }
+                if !out.ok() {
+                    if envpass {
+                        rep.violation("cli-stdin/encrypt", case, format!("{}: failed: {}", what, out.summary()));
+                    }
+                    return 0;
+                }
+                let file = if via_stdout { out.stdout.clone() } else { sc.read("out.ktl").unwrap_or_default() };
+                rep.nontrivial(&r::sha256(&file));
+                let (hdr, good) = if mode == "key" {
+                    (132, matches!(r::read_key_file(&parties[1].sk, &file), Ok(k) if k.parsed.plaintext == stdin && k.sender == parties[0].pk))
+                } else {
+                    (36, file.len() >= 36 && matches!(r::read_pass_file_with_key(&r::pass_key(pw.as_bytes(), file[4..36].try_into().unwrap()), &file), Ok(k) if k.plaintext == stdin))
+                };
+                let want = hdr + 32 * ((stdin.len() + CS - 1) / CS).max(1) + stdin.len();
+                if !good || file.len() != want {
+                    rep.violation("cli-stdin/output-is-not-the-encryption-of-stdin", case, format!("{}: exit 0 with a {}-byte file; the conforming encryption of what was offered on stdin has {} bytes{}", what, file.len(), want, if good { "" } else { " (and REF does not recover stdin from it)" }));
+                }
+                1
+            })
+            .sum();
+        rep.extra("cli_stdin_plaintext_runs", json!({"runs":sjobs.len(),"files_produced":produced}));
+    }
     rep.extra("cli_encryptions", json!(jobs.len()));
     rep.sample(json!({"kind":"cli","from":"alice-keyring-name","to":"alice-keyring-name","n":10,"via":"stdout","expect":"stdout is exactly a 174-byte conforming file containing neither name nor any party's key"}));
 }
